@@ -24,6 +24,32 @@ CHECKS = {
             "DESIGN.md §3.1, §3.2, §4 C19"),
 }
 
+SYMNOTE = ("Trusted: the primitive table of the symbolic evaluator (pst/core/prims.py: value laws of numpy/scipy/sklearn "
+           "callables), exact arithmetic, the stated configuration assumptions (non-empty finite diagrams unless a rule "
+           "evaluates another configuration). Equality of derived normal forms is decided structurally or by identity "
+           "testing of the *derived expressions* at random points (persim is never executed). ")
+
+CHECKS.update({
+    "C01": (True, "symbolic abstract interpretation to normal forms (cost-matrix blocks, tiling for all sizes) + CFG/def-use "
+                  "site rules on the threshold search",
+            CLAUSE + "Decides BN-COST, BN-TILE, BN-FILTER/WARN, BN-THRESH, BN-PERFECT, BN-BISECT, BN-ORDER, BN-EMPTY: the "
+            "augmented matrix is the statement's cost model for every size, and the search's structural invariants hold. "
+            "Declines: optimality of binary search + Hopcroft-Karp, float ties.",
+            SYMNOTE + "Hopcroft-Karp returns a maximum matching (dict with both directions).", "DESIGN.md §4 C01"),
+    "C02": (True, "symbolic abstract interpretation to normal forms (rotation constants folded, blocks, solver wiring)",
+            CLAUSE + "Decides WS-COST, WS-TILE, WS-FILTER/WARN, WS-SOLVE, WS-EMPTY. Declines: optimality of the Hungarian "
+            "solver, conditioning.", SYMNOTE + "linear_sum_assignment minimises over perfect assignments.",
+            "DESIGN.md §4 C02"),
+    "C07": (True, "units-of-measure (homogeneity degree) and translation-weight typing of the symbolically evaluated "
+                  "distance, plus role-swap comparison of normal forms",
+            CLAUSE + "Proves, for all finite non-empty inputs of any size in exact arithmetic: degree-1 homogeneity "
+            "(MI-DEG), invariance under diagonal translation (MI-SHIFT), role-swap symmetry of the matrix construction "
+            "(MI-SWAP). Declines: d(X,X)=0, triangle inequality, diagonal points, closed forms vs the empty diagram, "
+            "bottleneck<=Wasserstein (need solver optimality).",
+            SYMNOTE + "Index-valued primitives (assignment solver, matching, sort/unique) are scale- and shift-free on "
+            "homogeneous input.", "DESIGN.md §3.4, §3.5, §4 C07"),
+})
+
 NOT_APPLICABLE = {
     "C05": "soundness of the mGH lower/upper bounds is a theorem about computed values for every graph pair and RNG "
            "draw; no ownership, ordering, wiring or algebraic-type argument implies it (DESIGN.md §6); nearby "
